@@ -114,7 +114,7 @@ def be(v, n):
     return [(v >> (8 * (n - 1 - i))) & 0xFF for i in range(n)]
 
 
-def gen_script(rng):
+def gen_script(rng, sc_headroom=4, sc_slack=0):
     """-> (request line, expectations) where expectations[i] for token i is None (not judged) or a dict:
     state (h,d,t,l,dl), ret ('-', 'p<n>', 'v<n>'), or 'abort': True.  Judged only while the reference is valid."""
     r = rng.random()
@@ -125,8 +125,9 @@ def gen_script(rng):
         ref = RefMsgb(size)
         toks += ["alloc", str(size)]
     elif r < 0.7:
-        n = rng.choice([1, 2, 3, 8, 16, 100, 255, 256, 512] * 4 + [2048, 65531])
-        ref = RefMsgb(n + 4, 4)
+        n = rng.choice([1, 2, 3, 8, 16, 100, 255, 256, 512] * 4 + [2048, 65535 - sc_headroom - sc_slack])      # uint16_t size
+        # what sercomm_alloc_msgb(n) promises: n octets of tailroom; the headroom is what the running code shows (translator)
+        ref = RefMsgb(n + sc_slack + sc_headroom, sc_headroom)
         toks += ["scalloc", str(n)]
     elif r < 0.9:
         size = rng.choice([5, 6, 8, 12, 16, 40, 64, 300])
@@ -643,6 +644,13 @@ def judge_read(case, ans):
 # ------------------------------------------------------------------------------------------------------------------
 # correspondence
 
+def sc_room(run):
+    """(headroom, slack) of sercomm_alloc_msgb as the translator of the first part observed them on the running code"""
+    c = (getattr(run, "consts", None) or {}).get("host", {})
+    h, s = c.get("alloc_headroom", 4), c.get("alloc_slack", 0)
+    return (h if h >= 0 else 4, s if s >= 0 else 0)
+
+
 def correspond(run, corr, first_part=()):
     """first_part: [(flavour, lines, impl answers)] of the sercomm histories of props/C06.py"""
     build(run)
@@ -654,12 +662,20 @@ def correspond(run, corr, first_part=()):
     run.drift["msgb.c"] = vf.src_hash_c(os.path.join(lo, "src/msgb.c"), ["msgb_alloc", "msgb_enqueue", "msgb_dequeue", "msgb_reset"])
     run.drift["osmocon.c"] = vf.src_hash_c(os.path.join(vf.REPO, "src/host/osmocon/osmocon.c"),
                                            ["handle_sercomm_write", "hdlc_send_to_phone", "handle_buffer", "handle_read", "serial_read"])
+    # the model's sercomm_alloc_msgb has the tree's literals (len + 4, 4 octets of headroom) written into it; when the running
+    # code shows other values (gen/sercomm.py observes them) the model of that one function is stale: its scripts and the
+    # replay of the sercomm histories on real buffers are then evidence only, the oracle below still judges the real code
+    hr, slack = sc_room(run)
+    stale = (hr, slack) != (4, 0)
+    if stale:
+        corr.notes.append("sercomm_alloc_msgb now gives %d octets of headroom and %d of slack (model: 4, 0): the scripts that use it and "
+                          "the sercomm histories on real buffers are not compared as a tie" % (hr, slack))
     # 1. scripts of msgb operations
-    scripts = [gen_script(rng) for _ in range(run.scale(2000, 20000))]
+    scripts = [gen_script(rng, hr, slack) for _ in range(run.scale(2000, 20000))]
     lines = [s[0] for s in scripts]
     a = impl(run, "msgb", lines)
     b = vf.run_driver(lines)
-    compare_ub(corr, lines, a, b, domain=[contract_len(sc[1], sc[2]) for sc in scripts])
+    compare_ub(corr, lines, a, b, domain=[0 if (stale and sc[0].startswith("mb.run scalloc")) else contract_len(sc[1], sc[2]) for sc in scripts])
     run.c06m_scripts = list(zip(scripts, a))
     for l, x in zip(lines, a):
         last = x.split()[-1] if x.split() else ""
@@ -690,7 +706,7 @@ def correspond(run, corr, first_part=()):
             corr.count(hashlib.md5(l.encode()).hexdigest()[:16], "%s: sercomm history on real msgbs" % flavour)
             if x == m:
                 continue
-            if m == "CRASH":
+            if m == "CRASH" or stale:
                 corr.outside += 1
                 continue
             if len(corr.disagreements) < 50:
@@ -773,7 +789,7 @@ def oracle(run, corr, deep):
     # 1. the buffer contract on the scripts of the correspondence run (+ more when something broke)
     scripts = list(getattr(run, "c06m_scripts", []))
     if deep or not scripts:
-        extra = [gen_script(run.rng) for _ in range(run.scale(6000, 20000))]
+        extra = [gen_script(run.rng, *sc_room(run)) for _ in range(run.scale(6000, 20000))]
         ea = impl(run, "msgb", [s[0] for s in extra])
         scripts += list(zip(extra, ea))
     for (line, exp, mem), ans in scripts:
